@@ -228,7 +228,8 @@ pub fn run_case<V: VringT<GM> + Clone + Send + Sync + 'static>(case: &Value, tra
                     let r = &pool[*rid];
                     body.extend_from_slice(&r.gpa.to_le_bytes());
                     body.extend_from_slice(&((r.size as i64 + size_delta) as u64).to_le_bytes());
-                    body.extend_from_slice(&r.ua.to_le_bytes());
+                    let ua = if op == "rem_mem_reg" && step["ua_zero"].as_bool() == Some(true) { 0u64 } else { r.ua };
+                    body.extend_from_slice(&ua.to_le_bytes());
                     body.extend_from_slice(&r.off.to_le_bytes());
                     if op != "rem_mem_reg" {
                         fds.push(if bad && i == rids.len() - 1 { badsock.0.as_raw_fd() } else { r.file.as_raw_fd() });
@@ -344,18 +345,26 @@ pub fn run_case<V: VringT<GM> + Clone + Send + Sync + 'static>(case: &Value, tra
                 let gm = rig.tb.mem.lock().unwrap().clone();
                 let gpa = pool[rid].gpa.wrapping_add(o);
                 let before = log_snapshot(&log_guard);
+                let mut write_panicked = false;
                 let wrote = match gm {
                     Some(g) => {
                         let data = vec![0x5au8; len.min(1 << 22)];
                         // a write may be partial at the end of a region: use the Bytes::write semantics
                         use vm_memory::Bytes;
                         use vm_memory::GuestAddressSpace;
-                        g.memory().write(&data, vm_memory::GuestAddress(gpa)).unwrap_or(0)
+                        // a panic inside the write (e.g. the dirty bitmap indexed past its end) is data
+                        match std::panic::catch_unwind(std::panic::AssertUnwindSafe(|| g.memory().write(&data, vm_memory::GuestAddress(gpa)).unwrap_or(0))) {
+                            Ok(n) => n,
+                            Err(_) => {
+                                write_panicked = true;
+                                0
+                            }
+                        }
                     }
                     None => 0,
                 };
                 let (newbits, cleared, guard_ok) = log_diff(&log_guard, &before);
-                out = json!({"wrote": wrote, "gpa": limbs(gpa), "newbits": newbits, "cleared": cleared, "guard_ok": guard_ok});
+                out = json!({"wrote": wrote, "gpa": limbs(gpa), "newbits": newbits, "cleared": cleared, "guard_ok": guard_ok, "panicked": write_panicked});
                 status = "ok".into();
             }
             "brfd" => {
